@@ -60,16 +60,41 @@ def judge(run, scn, meta, res, plan, section):
     elif 'sysfault' in plan:
         k = plan['sysfault'][0]
         hit = o['muts'][k - 1] if k - 1 < len(o.get('muts', [])) else None
+    elif 'sysfaults' in plan:
+        k = plan['sysfaults'][-1][0]
+        hit = 'move:' + (o['muts'][k - 1] if k - 1 < len(o.get('muts', [])) else '?')
     tolerate = hit in ('remove', 'unlink', 'rmtree', 'close')
     nf = len(run.failures)
     outs = putlib.conservation(run, scn, meta, res, section, allow_stray_if_refused=tolerate)
-    # known finding: with the home fallback enabled, a cross-device shutil.move that fails half-way (a fault inside copy+delete)
-    # leaves the copy it had made under files/; trash-put reports failure and removes the info, the source is intact
-    st = scn['steps'][0]
-    if '--home-fallback' in st['argv'] and (st.get('env') or {}).get('TRASH_ENABLE_HOME_FALLBACK') == '1' and 'failed to move' in o['stderr']:
-        for f in run.failures[nf:]:
-            if f.get('key') == 'orphan-payload' and all(x in ('untouched', 'none', 'trashed') for x in outs):
-                f['key'] = 'orphan-copy-after-failed-cross-device-move'
+    # known finding: shutil.move degrades to copy + delete whenever rename is refused (EXDEV under the home fallback, or any
+    # other error); when that copying move then fails half-way, the copy it had made stays under files/ without .trashinfo
+    # (trash-put reports the failure and removes the info; a later candidate may then trash what is left of the source)
+    failed_copying_move = False
+    seen_rename = False
+    for t in o['trace']:
+        if t[0] == 'move' and t[2] and t[2][0] == 'err':
+            failed_copying_move = True
+    copied = any(m in ('sendfile', 'copy_file_range', 'symlink') for m in o.get('muts', [])) or o.get('muts', []).count('mkdir') > 6
+    if failed_copying_move and copied:
+        before, after = res['before'], o['after']
+        pairs_, strays_, orphans_ = putlib.new_trash_items(before, after)
+        orphan_trees = [putlib.loose(sandbox.subtree(after, td + '/files/' + nm)) for td, nm in orphans_]
+        conserved = True
+        for a in meta['args']:
+            if not a['entry']:
+                continue
+            ent = engine.physical(before, a['entry'])
+            orig = putlib.loose(sandbox.subtree(before, ent))
+            if not orig:
+                continue
+            here = putlib.loose(sandbox.subtree(after, ent)) == orig
+            inpair = any(putlib.loose(sandbox.subtree(after, td + '/files/' + nm)) == orig for td, nm in pairs_)
+            if not (here or inpair or orig in orphan_trees):
+                conserved = False          # the content exists NOWHERE complete: that is not the known finding
+        if conserved:
+            for f in run.failures[nf:]:
+                if f.get('key') in ('orphan-payload', 'unexplained-entry') or str(f.get('key')).startswith('half-trashed'):
+                    f['key'] = 'orphan-copy-after-failed-copying-move'
     if o['exc'] is not None and o['exc'] not in ():
         # an uncaught exception is a termination with failure (exit 1); C16 objects to it, C17 only if the state is bad (judged above)
         pass
@@ -77,7 +102,7 @@ def judge(run, scn, meta, res, plan, section):
         allok = all(x == 'trashed' for x in outs if x != 'none')
         if (o['exit'] == 0) != allok and 'violated' not in outs:
             run.fail('oracle', 'under a fault the exit status does not match what happened', dict(case, outcomes=outs), key='dishonest-exit', section=section)
-    run.nontriv((hit, (plan.get('fault') or plan.get('sysfault') or [0, list(plan.get('faults', {'x': {'errno': 0}}).values())[0]['errno']])[1], tuple(outs), o['exit']))
+    run.nontriv((hit, (plan.get('fault') or plan.get('sysfault') or (plan.get('sysfaults') or [[0, 0]])[-1] if not plan.get('faults') else [0, list(plan['faults'].values())[0]['errno']])[1], tuple(outs), o['exit']))
     return 'ok'
 
 
@@ -141,6 +166,32 @@ def run(run, thorough):
             s['steps'][0]['plan'] = plan
             s['steps'][0]['maxlib'] = 3000
             faulted.append(s)
+            metas.append(meta)
+            plans.append(plan)
+    # two syscall-level faults inside ONE library call: the rename of a directory is refused (the move degrades to copy + delete),
+    # then one of the last steps of the delete is refused too
+    firsts = []
+    for (scn, meta), res in zip(bases, base_res):
+        if res.get('harness_error') or not res.get('steps'):
+            continue
+        muts = res['steps'][0].get('muts', [])
+        if any(a['kind'] == 'd' for a in meta['args']):
+            for k, mname in enumerate(muts, 1):
+                if mname == 'rename':
+                    s1 = copy.deepcopy(scn)
+                    s1['steps'][0]['plan'] = {'sysfaults': [[k, errno.EACCES]]}
+                    firsts.append((s1, meta, k))
+    r1 = sandbox.execute_many([s for s, m, k in firsts]) if firsts else []
+    for (s1, meta, k), res1 in zip(firsts, r1):
+        if res1.get('harness_error') or not res1.get('steps'):
+            continue
+        n1 = res1['steps'][0].get('nmut', 0)
+        for k2 in range(max(k + 1, n1 - 3), n1 + 1):
+            s2 = copy.deepcopy(s1)
+            plan = {'sysfaults': [[k, errno.EACCES], [k2, errno.EACCES]]}
+            s2['steps'][0]['plan'] = plan
+            s2['steps'][0]['maxlib'] = 3000
+            faulted.append(s2)
             metas.append(meta)
             plans.append(plan)
     out = engine.run_all(run, 'faulted', faulted)
